@@ -12,6 +12,7 @@ exit 2: ANALYSIS-ERROR (the analysis itself could not run: never a verdict)
 """
 import json
 import os
+import re
 import sys
 import time
 import traceback
@@ -56,14 +57,23 @@ def run_property(pid, tier, ctx=None, quiet=False):
     obligations = []
     per_rule = {}
     out = []
-    for rid in spec['rules']:
+    for entry in spec['rules']:
+        rid, flt = (entry, None) if isinstance(entry, str) else entry
         fn = RULES.get(rid)
         if fn is None:
             raise AnalysisError('rule %s listed for %s is not implemented' % (rid, pid))
-        obs = fn(ctx)
+        cache = ctx.__dict__.setdefault('_rule_results', {})
+        if rid not in cache:
+            cache[rid] = fn(ctx)
+        obs = cache[rid]
         if len(obs) < fn.floor:
             raise AnalysisError('rule %s produced %d obligations, below its floor %d: an anchor vanished or the '
                                 'matcher went blind' % (rid, len(obs), fn.floor))
+        if flt is not None:
+            rx = re.compile(flt)
+            obs = [o for o in obs if rx.search(o.key)]
+            if not obs:
+                raise AnalysisError('rule %s has no obligation matching %r for %s: an anchor vanished' % (rid, flt, pid))
         per_rule[rid] = obs
         obligations.extend(obs)
     viol = []
@@ -177,7 +187,8 @@ def main(argv):
             ctx = Ctx(tier=tier)
             want = rp['obligation']
             found = False
-            for rid in props.PROPS[pid]['rules']:
+            for entry in props.PROPS[pid]['rules']:
+                rid = entry if isinstance(entry, str) else entry[0]
                 if rid != want['rule']:
                     continue
                 for ob in RULES[rid](ctx):
